@@ -6,6 +6,7 @@ mod c18;
 mod f32ops;
 mod treegen;
 mod c03;
+mod c08;
 
 fn main() {
     let args: Vec<String> = std::env::args().collect();
@@ -18,6 +19,7 @@ fn main() {
         "c18" => c18::main(rest),
         "f32" => f32ops::main(rest),
         "c03" => c03::main(rest),
+        "c08" => c08::main(rest),
         other => {
             eprintln!("unknown property {other}");
             std::process::exit(2);
